@@ -1,9 +1,10 @@
 import Tally.Model.Registry
 /-!
-# Combined model: the root's `Close` over a LIVE registry shard (scope.go + scope_registry.go, repaired code)
+# Combined model: the root's `Close` over a LIVE registry shard (scope.go + scope_registry.go, repaired code:
+  final pass, purge, THEN flush)
 
 `Tally.RootClose` abstracts the registry to K fixed cells; `Tally.Registry` has no root life-cycle.  This model puts
-the root's control skeleton (CAS, `close(done)`, `wg.Wait()`, final pass, `Flush`, `purge`, reporter `Close`, and
+the root's control skeleton (CAS, `close(done)`, `wg.Wait()`, final pass, `purge`, `Flush`, reporter `Close`, and
 the report-loop goroutine) ON TOP of the registry shard model: the shard is the component `reg : Registry.State`,
 and every step of the combined model either
 
@@ -17,8 +18,13 @@ threads use `record`, `close sid` (a SUBSCOPE: `sid ≠ 0`; scope 0 is the root,
 root's `Close`), `obtain t r` (= `registry.Subscope`; its root-closed check is at ENTRY, so it is enabled only while
 `rootClosed = false` — an obtain already under way continues after the CAS) and `step t c` of an obtain in
 progress.  A report pass is a Registry pass (`passBegin … step … passEndHint`), but can be STARTED only by the loop
-(after a tick whose `closed.Load()` returned false) or by the winning `Close` call (after `wg.Wait()`), and is
-followed by a `flush` log entry.
+(after a tick whose `closed.Load()` returned false) or by the winning `Close` call (after `wg.Wait()`).  A PERIODIC
+pass is followed by a `flush` log entry.  The FINAL pass of the winning `Close` call is followed by the `purge` and
+only THEN by the final `flush` (repaired order: `registry.Report`, `registry.purge()`, `reporter.Flush()`, reporter
+`Close`): the purge takes the shard's write lock, so it waits for every re-acquire visit that still holds the read
+lock — and whatever such a visit delivers is delivered BEFORE the final flush.  The order of the code before that
+repair (final pass, `Flush`, purge) is kept as `Legacy.step` / `Legacy.run`: there a value recorded before `Close`
+can reach the reporter after the last `Flush` (`C08Life.legacy_reacquire_in_flight_delivers_after_final_flush`).
 
 The log.  Deliveries are `reg.delivered` (most recent first); the log records `flush n` / `reporterClose n` where
 `n = reg.delivered.length` at that moment, so the interleaving of deliveries with flushes and the reporter's
@@ -62,9 +68,9 @@ inductive CPc
   | doneClosedPc            -- `done` closed; about to `wg.Wait()`
   | waited                  -- `wg.Wait()` returned; about to start the final `reportRegistry` (RLock)
   | pass                    -- inside the final Registry pass (thread `closerTid call`)
-  | flushPc                 -- registry walked; about to call `Flush`
-  | purgePc                 -- final flush done; about to purge the registry
-  | reporterClose           -- about to close the reporter if it is an `io.Closer`
+  | purgePc                 -- registry walked; about to purge the registry (write lock)
+  | flushPc                 -- registry purged; about to call the final `Flush`
+  | reporterClose           -- final flush done; about to close the reporter if it is an `io.Closer`
   | returned (err : Option Nat)   -- the winning call returned `err`
   | returnedNil             -- CAS failed: returned nil
 deriving Repr, DecidableEq
@@ -198,10 +204,10 @@ def step (san : Nat → Nat) (s : State) : Ev → Option State
       | none => none
       | some r => some { setC s t .pass with reg := r, snap := s.reg.reg }
     | .pass => regStep san s (.step (closerTid t) c)
-    | .flushPc => some { setC s t .purgePc with log := .flush s.reg.delivered.length :: s.log }
     | .purgePc =>
-      if s.reg.readers.isEmpty then some { setC s t .reporterClose with reg := purgeReg s.reg, purged := true }
+      if s.reg.readers.isEmpty then some { setC s t .flushPc with reg := purgeReg s.reg, purged := true }
       else none
+    | .flushPc => some { setC s t .reporterClose with log := .flush s.reg.delivered.length :: s.log }
     | .reporterClose =>
       if s.closable then
         some { setC s t (.returned s.err) with log := .reporterClose s.reg.delivered.length :: s.log }
@@ -214,7 +220,7 @@ def step (san : Nat → Nat) (s : State) : Ev → Option State
       if finalPassComplete s t then
         match Registry.step san s.reg (.passEndHint (closerTid t)) with
         | none => none
-        | some r => some { setC s t .flushPc with reg := r }
+        | some r => some { setC s t .purgePc with reg := r }
       else none
     | _ => none
 
@@ -223,6 +229,39 @@ def run (san : Nat → Nat) (s : State) : List Ev → Option State
   | e :: es => match step san s e with
     | none => none
     | some s' => run san s' es
+
+/-! ## the code BEFORE the repair: final pass, `Flush`, purge -/
+
+namespace Legacy
+
+/-- the root's `Close` as it was before the repair: the winning call goes final pass → `flushPc` (final `Flush`) →
+`purgePc` (purge) → `reporterClose` → `returned`.  Everything else is `ScopeLife.step`. -/
+def step (san : Nat → Nat) (s : State) : Ev → Option State
+  | .closer t c =>
+    match s.closers t with
+    | .flushPc => some { setC s t .purgePc with log := .flush s.reg.delivered.length :: s.log }
+    | .purgePc =>
+      if s.reg.readers.isEmpty then some { setC s t .reporterClose with reg := purgeReg s.reg, purged := true }
+      else none
+    | _ => ScopeLife.step san s (.closer t c)
+  | .closerEnd t =>
+    match s.closers t with
+    | .pass =>
+      if finalPassComplete s t then
+        match Registry.step san s.reg (.passEndHint (closerTid t)) with
+        | none => none
+        | some r => some { setC s t .flushPc with reg := r }
+      else none
+    | _ => none
+  | e => ScopeLife.step san s e
+
+def run (san : Nat → Nat) (s : State) : List Ev → Option State
+  | [] => some s
+  | e :: es => match step san s e with
+    | none => none
+    | some s' => run san s' es
+
+end Legacy
 
 /-! ## observations -/
 
